@@ -81,6 +81,46 @@ def isForeign : GEv → Bool
   | .foreignUse _ => true
   | .panic => false
 
+/-- one public function / trait method / associated type of the crate's API -/
+structure ApiFn where
+  ty : String
+  selfTy : String
+  /-- the key and value (maps) or element (sets) type parameters, as the impl block names them -/
+  elems : List String
+  fn : String
+  trait_ : String
+  /-- the trait's name without its generic arguments -/
+  traitHead : String
+  /-- some closure parameter's bound ends in `-> Option<V>`: the method stores what a callback makes -/
+  makesValue : Bool
+  /-- lifetime of `&self` (`'_self` when elided), of the `&'g Wrapper` self type, or of the impl -/
+  selfLt : Option String
+  selfKind : String
+  params : List (String × String)
+  /-- reference lifetimes of the `&Guard` parameters -/
+  guardLts : List String
+  ret : String
+  /-- lifetimes occurring in the return type, elision resolved -/
+  retLts : List String
+  retBorrows : Bool
+  /-- `(type, bound)` pairs of the impl block and of the method -/
+  bounds : List (String × String)
+deriving Repr
+
+structure ApiField where
+  struct_ : String
+  ltParams : List String
+  field : String
+  ty : String
+  lts : List String
+deriving Repr
+
+structure UnsafeImpl where
+  trait_ : String
+  ty : String
+  bounds : List (String × String)
+deriving Repr
+
 /-- what a serde visitor does when an entry's key is already present (C19) -/
 inductive DupPolicy where
   /-- the new entry replaces the old one (maps) / is dropped (sets): no failure -/
